@@ -133,4 +133,12 @@ CHECKS = {
             dict(name="regress", run="^TestRegress", shards=(1, 1)),
         ],
     ),
+    "C12": dict(
+        pkg="./c12", level="fault_enumeration",
+        runs=[
+            dict(name="enum", run="^TestCrashEnumeration$", shards=(4, 8)),
+            dict(name="random", run="^TestRandomTimeKills$", shards=(1, 4), thorough_only=True),
+            dict(name="regress", run="^TestRegress", shards=(1, 1)),
+        ],
+    ),
 }
